@@ -67,8 +67,10 @@ def random_case(rng, max_states=5, max_syms=3, kinds=("enfa", "nfa", "dfa"), vcs
                 edits.append(["rm_t"] + list(rng.choice(case["trans"])))
             elif r < 0.65 and case["final"]:
                 edits.append(["rm_f", rng.choice(case["final"])])
-            elif r < 0.8 and case["start"]:
+            elif r < 0.75 and case["start"]:
                 edits.append(["rm_s", rng.choice(case["start"])])
+            elif r < 0.85:
+                edits.append(["add_s", rng.randrange(max(n, 1))])
             elif kind != "dfa":
                 edits.append(["add_t", rng.randrange(max(n, 1)), rng.randrange(k), rng.randrange(max(n, 1))])
             else:
@@ -87,6 +89,8 @@ def apply_edits(fa, case):
                 fa.remove_final_state(sval(case, e[1]))
             elif e[0] == "rm_s":
                 fa.remove_start_state(sval(case, e[1]))
+            elif e[0] == "add_s":
+                fa.add_start_state(sval(case, e[1]))
             elif e[0] == "add_t":
                 fa.add_transition(sval(case, e[1]), aval(case, e[2]), sval(case, e[3]))
             elif e[0] == "add_f":
